@@ -345,8 +345,11 @@ def gen_program(rng, opts=None):
     if o.get("wide_controls", True):
         # an inserter's control may be any value: wider than one bit it is asserted when non-zero, as every condition of the language
         for ci in ctl:
-            if r.random() < 0.2:
+            q = r.random()
+            if q < 0.2:
                 sigs[ci]["width"] = 2
+            elif q < 0.3:
+                sigs[ci]["signed"] = True          # signed(1): asserted when -1
     inputs = [i for i, s in enumerate(sigs) if s["role"] in ("input",)]
 
     def readable_for(targets_sig, dom):
